@@ -106,42 +106,60 @@ def Mgr.pseudoBool (m : Mgr) (S : Store Var) (q : Ineq Var) (dec : Bool) : Excep
       let m := m.newvar (.node root)
       pure (m.addClause [⟨.node root, true⟩], S')
 
-/-- `ttable[v]` -/
-def Mgr.index (m : Mgr) (v : Var) : Option Nat :=
-  let i := m.vars.idxOf v
-  if i < m.vars.length then some (i + 1) else none
+/-- position of `v` in `vtable` (the first entry has number `k`) -/
+def lookupIdx : List Var → Var → Nat → Option Nat
+  | [], _, _ => none
+  | w :: r, v, k => if w = v then some k else lookupIdx r v (k + 1)
+
+/-- `ttable[v]` (`None` = `KeyError`) -/
+def Mgr.index (m : Mgr) (v : Var) : Option Nat := lookupIdx m.vars v 1
+
+/-- the integer literal `solve()` builds for a literal (nothing is flipped) -/
+def Mgr.litInt (m : Mgr) (x : Lit) : Except Err Int :=
+  match m.index x.v with
+  | some i => .ok (if x.s = false then -(i : Int) else (i : Int))
+  | none => .error .keyError
 
 /-- the integer clauses handed to the solver by `solve()` -/
 def Mgr.cnf (m : Mgr) : Except Err (List (List Int)) :=
-  m.clauses.mapM fun c => c.mapM fun (x : Lit) =>
-    match m.index x.v with
-    | some i => .ok (if x.s = false then -(i : Int) else (i : Int))
-    | none => .error .keyError
+  m.clauses.mapM fun c => c.mapM m.litInt
 
 /-- `arr` after the loop over `get_model()` -/
 def fillArr : List Int → List Int → List Int
   | arr, [] => arr
   | arr, w :: r => if w < 0 then fillArr (arr.set (-w).toNat 0) r else fillArr (arr.set w.toNat 1) r
 
+/-- `model[v] = x` on the dictionary `self.model` -/
+def setModel : List (Var × Int) → Var → Int → List (Var × Int)
+  | [], v, x => [(v, x)]
+  | (w, y) :: r, v, x => if w = v then (w, x) :: r else (w, y) :: setModel r v x
+
+/-- `model.get(v)` -/
+def getModel : List (Var × Int) → Var → Option Int
+  | [], _ => none
+  | (w, y) :: r, v => if w = v then some y else getModel r v
+
+/-- `for v in self.ttable: self.model[v] = arr[self.ttable[v]]` (the `k`-th key of `ttable` has number `k`) -/
+def storeModel (arr : List Int) : List Var → Nat → List (Var × Int) → List (Var × Int)
+  | [], _, mdl => mdl
+  | v :: r, k, mdl => storeModel arr r (k + 1) (setModel mdl v (arr.getD k 0))
+
 /-- `solve()`; `ans` is `None` when `Solver.solve()` answered `False`, else `get_model()` -/
-def Mgr.solve (m : Mgr) (ans : Option (List Int)) : Except Err (Bool × Mgr) := do
-  let _ ← m.cnf
-  match ans with
-  | none => pure (false, m)
-  | some mod =>
-    let arr := fillArr (List.replicate (m.vars.length + 1) 0) mod
-    -- `for v in ttable: self.model[v] = arr[ttable[v]]`: existing keys keep their place, new keys are appended
-    let upd := fun (mdl : List (Var × Int)) (vi : Var × Nat) =>
-      let x := arr.getD vi.2 0
-      if mdl.any (·.1 = vi.1) then mdl.map (fun p => if p.1 = vi.1 then (p.1, x) else p) else mdl ++ [(vi.1, x)]
-    let mdl := (m.vars.zipIdx 1).foldl upd m.model
-    pure (true, { m with model := mdl })
+def Mgr.solve (m : Mgr) (ans : Option (List Int)) : Except Err (Bool × Mgr) :=
+  match m.cnf with
+  | .error e => .error e
+  | .ok _ =>
+    match ans with
+    | none => .ok (false, m)
+    | some mod =>
+      let arr := fillArr (List.replicate (m.vars.length + 1) 0) mod
+      .ok (true, { m with model := storeModel arr m.vars 1 m.model })
 
 /-- `value(lit)` -/
 def Mgr.value (m : Mgr) (l : Lit) : Option Int :=
-  match m.model.find? (·.1 = l.v) with
+  match getModel m.model l.v with
   | none => none
-  | some p => some (if l.s = false then 1 - p.2 else p.2)
+  | some x => some (if l.s = false then 1 - x else x)
 
 /-- `evalexpr(expr)` -/
 def Mgr.evalExpr (m : Mgr) (e : Expr Var) : Option Int :=
